@@ -137,7 +137,7 @@ ADDENDA5 = {
  "C05": "The three scope matchers called directly over every list of up to 3 granted and 2 required scopes: composed of the answers for single pairs; two identity providers behind one cache. Audience lists of 18; a key pinned by its own self-signed certificate in the trust store.",
  "C07": "Scenarios with a rule set that cannot be loaded followed by further changes, and with two readers asking for different hosts (regex host condition); the file_system provider while it starts; the cloud_blob scheduler with a held callback. Readers with percent-encoded paths.",
  "C08": "The Envoy service as third entry point (request target with a query in the path attribute, as Envoy sends it); settings changed by an update.",
- "C09": "Trusted addresses in upper case, expanded and IPv4-mapped notation; a canary request before every judged one. Peers whose address text extends a listed address. An IPv6 entry whose last four bytes equal an IPv4 peer.",
+ "C09": "Trusted addresses in upper case, expanded and IPv4-mapped notation; a canary request before every judged one. Peers whose address text extends a listed address. An IPv6 entry whose last four bytes equal an IPv4 peer. IPv6 peers whose last four bytes equal a listed IPv4 address.",
  "C10": "The jwt finalizer with a signing certificate that expires before its tokens; the RFC 7234 cells also in front of the metadata endpoint of a jwt authenticator with http_cache configured explicitly. No successful verification after the expiry of the key's certificate, also with a freshly fetched key. Sessions issued before they are first seen (issued_at). Session times written without a zone with the process in a zone west of UTC.",
  "C11": "Other origins (port, scheme) under the same host name in the httpcache family; a recording cache that keeps references and reports later writes. Numbers in remote answers observed with their Go types; the forwarded response header name in lower case; an unavailable endpoint behind a tolerant and a strict variant; two concurrent requests for different keys of one key set with the first answer held. Endpoint URLs differing in letter case only; a remote authorizer whose endpoint answers without a body.",
  "C14": "Malformed rules followed by a well-formed one; another source's rule set coming and going before the backtracking probe; settings reached by an update. Rule set documents (through ParseRules) with one list written as a mapping, a scalar or a list; non-boolean expressions without a static type.",
